@@ -21,6 +21,7 @@
 #include <stdatomic.h>
 #include <stdlib.h>
 #include <unistd.h>
+#include <time.h>
 
 const char *vprop_id = "C08";
 int vprop_fork = 1;
@@ -70,7 +71,7 @@ static OrcProgram *kbuild (int k)
 
 typedef struct { uint32_t op, arg, yield; } Op;
 typedef struct {
-  int id, nops;
+  int id, nops, skip_init, done;
   Op ops[16];
   int16_t d[N + 8], s1[N + 8], s2[N + 8];
   char fail[300];
@@ -142,7 +143,9 @@ static void *worker (void *arg)
   Thr *t = (Thr *) arg;
   int i;
   pthread_barrier_wait (&bar);
-  orc_init ();
+  /* an application may rely on the library initialising itself on first use (generated wrappers do): some threads do not call
+     orc_init() themselves */
+  if (!t->skip_init) orc_init ();
   for (i = 0; i < t->nops && !t->fail[0]; i++) {
     Op *o = &t->ops[i];
     pause_a_bit (o->yield);
@@ -187,7 +190,22 @@ static void *worker (void *arg)
       default: orc_init (); break;
     }
   }
+  __atomic_store_n (&t->done, 1, __ATOMIC_RELEASE);
   return NULL;
+}
+
+/* CPU time consumed by the worker threads only (the watching main thread does not count) */
+static pthread_t watch_th[16]; static int watch_n;
+static double cpu_seconds (void)
+{
+  double tot = 0;
+  int i;
+  for (i = 0; i < watch_n; i++) {
+    clockid_t cid;
+    struct timespec ts;
+    if (!pthread_getcpuclockid (watch_th[i], &cid) && !clock_gettime (cid, &ts)) tot += (double) ts.tv_sec + (double) ts.tv_nsec * 1e-9;
+  }
+  return tot;
 }
 
 void vprop_case (VChoices *c, VResult *r)
@@ -204,7 +222,8 @@ void vprop_case (VChoices *c, VResult *r)
     int seenw[4] = { 0, 0, 0, 0 };
     t->id = i;
     t->nops = 3 + (int) vc_pick (c, 12);
-    v_desc (r, "thread %d:", i);
+    t->skip_init = vc_pick (c, 3) == 0;
+    v_desc (r, "thread %d%s:", i, t->skip_init ? " (no orc_init call of its own)" : "");
     for (k = 0; k < t->nops; k++) {
       t->ops[k].op = vc_pick (c, 6);
       t->ops[k].arg = vc_u32 (c) % 1000;
@@ -220,6 +239,33 @@ void vprop_case (VChoices *c, VResult *r)
   pthread_barrier_init (&bar, NULL, (unsigned) nt);
   v_stage (r, "threads running");
   for (i = 0; i < nt; i++) pthread_create (&th[i], NULL, worker, &thr[i]);
+  for (i = 0; i < nt; i++) watch_th[i] = th[i];
+  watch_n = nt;
+  {
+    /* deadlock watch: threads that are not done while the process burns no CPU for 8 consecutive seconds are stuck (a loaded
+       machine slows the process down but it keeps consuming CPU time) */
+    double last = cpu_seconds (), idle = 0;
+    struct timespec t0, t1;
+    clock_gettime (CLOCK_MONOTONIC, &t0);
+    for (;;) {
+      int alive = 0;
+      for (i = 0; i < nt; i++) if (!__atomic_load_n (&thr[i].done, __ATOMIC_ACQUIRE)) alive++;
+      if (!alive) break;
+      usleep (2000);
+      clock_gettime (CLOCK_MONOTONIC, &t1);
+      {
+        double now = cpu_seconds (), dt = (double) (t1.tv_sec - t0.tv_sec) + (double) (t1.tv_nsec - t0.tv_nsec) * 1e-9;
+        t0 = t1;
+        if (now - last < 0.0002) idle += dt; else idle = 0;
+        last = now;
+      }
+      if (idle >= 8.0) {
+        v_fail (r, "deadlock", "%d thread(s) never finished and the process used no CPU time for 8 seconds: deadlock", alive);
+        fflush (NULL);
+        _exit (0);
+      }
+    }
+  }
   for (i = 0; i < nt; i++) pthread_join (th[i], NULL);
   v_stage (r, "joined");
   for (i = 0; i < nt && r->verdict != V_FAIL; i++) if (thr[i].fail[0]) v_fail (r, "thread:wrong-result", "thread %d: %s", i, thr[i].fail);
